@@ -236,6 +236,7 @@ var c11Ops = []*c11OpSpec{
 	{"ToDecimalString", pOpToDecimalString, "TG", true, true},
 	{"ToHexString", pOpToHexString, "TG", true, true},
 	{"ToInteger", pOpToInteger, "TG", true, true},
+	{"ToString", pOpToString, "TTG", true, true},
 	{"FromBCD", pOpFromBCD, "TG", true, true},
 	{"ToBCD", pOpToBCD, "TG", true, true},
 	{"Increment", pOpIncrement, "S", true, true},
